@@ -88,6 +88,14 @@ CHECKS["C07"] = (
     "DESIGN.md section 4, C07",
 )
 
+CHECKS["C08"] = (
+    "E1-explicit-state",
+    "explicit-state BFS over multi-instance histories of generated spec classes with bystander, sharing and fresh-default oracles",
+    "For every attribute kind x every way of declaring a default (literal, mutable literal, Attr(default/default_factory), field(default/default_factory), override in a spec subclass, override in a plain subclass) and the composites, a BFS over histories mixing construction of up to 2 (quick) / 3 (thorough) live instances, in-place scalar / element / nested-keyword mutation of any live instance, assignment, del, reset_<attr> and reset is run on the real class; after every transition class-level defaults, constructor arguments and peers must be observably unchanged, no instance may share a mutable node with them, and a reset/deleted attribute must equal (and not alias) what a freshly constructed instance of the same class holds.",
+    "Bounded depth and pools; do_not_copy attribute values are excepted from the sharing oracle; objects assigned with obj.attr = value are caller-owned.",
+    "DESIGN.md section 4, C08",
+)
+
 ENGINES = [
     {"name": "E1-explicit-state", "path": "mc/common.py, props/*.py (explore)", "serves_properties": [],
      "kind_free_text": "breadth-first explicit-state search over the real transition function; a state is the shortest operation history that reaches it, rebuilt by replay; canonical-form deduplication; lock-step reference model"},
